@@ -583,7 +583,12 @@ class _insert_helper(Contract):
         pre = inserted_prefix(items1, items0, pts, k, c.measurement, NOW)
         return [("prefix_before_offending_element_inserted", z3.Exists([k], z3.And(first_non_point(pts, k), *[f for _, f in pre])))] + dbinv(c.self)
 
+    # `points` may be any iterable (insert_multiple is called with generators): producing the next element may raise (C11: the database
+    # stays consistent and usable; the points already inserted stay inserted)
+    fallible_iter = {"points": "IterFault"}
     raises = {"TypeError": staticmethod(lambda c: _insert_helper._raises(c)),
+              "IterFault": staticmethod(lambda c: dict(when=z3.BoolVal(True), exact=False, ensures=lambda c2: dbinv_no_temp(c2.self) + [
+                  ("temp_untouched", c2.self.t["_storage"].t["temp"].t == c2.old.self.t["_storage"].t["temp"].t)])),
               "WriteFault": staticmethod(lambda c: dict(when=z3.BoolVal(True), exact=False, ensures=lambda c2: dbinv_no_temp(c2.self) + [
                   ("temp_untouched", c2.self.t["_storage"].t["temp"].t == c2.old.self.t["_storage"].t["temp"].t)]))}
 
@@ -626,21 +631,23 @@ class _insert_helper(Contract):
             ("all_points_so_far", forall([j], z3.Implies(z3.And(0 <= j, j < t), is_point(l_at(pts, j))), patterns=[l_at(pts, j)])),
             ("temp_untouched", c.self.t["_storage"].t["temp"].t == c.old.self.t["_storage"].t["temp"].t),
             ("in_time_order_keeps_index_valid", z3.Implies(z3.And(auto, ix0["_valid"].t, _insert_helper._in_order(c, t)), ix1["_valid"].t)),
-            ("index_untouched_without_auto_or_at_start", z3.Implies(z3.Or(z3.Not(auto), t == 0), z3.And(*[ix1[a].t == ix0[a].t for a in ix0]))),
+            ("index_untouched_at_start", z3.Implies(t == 0, z3.And(*[ix1[a].t == ix0[a].t for a in ix0]))),
+            ("without_auto_index_invalid_once_a_point_is_stored", z3.Implies(z3.And(z3.Not(auto), t > 0), z3.Not(ix1["_valid"].t))),
             ("latest_indexed_time", z3.Implies(z3.And(auto, ix1["_valid"].t, t > 0), z3.And(l_len(TS1) > 0,
                                                                                             l_at(TS1, l_len(TS1) - 1) == ts(norm_point(l_at(pts, t - 1), c.measurement, NOW))))),
         ] + inserted_prefix(items1, items0, pts, t, c.measurement, NOW) + _insert_helper._dbinv_loop(c)
 
     @staticmethod
     def _dbinv_loop(c):
-        # with auto_index off the index is only invalidated after the loop: inside it a valid index is the untouched old one
-        auto = c.self.t["_auto_index"].t
-        return [(l, z3.Implies(auto, f)) if l.startswith("ix:") else (l, f) for l, f in dbinv(c.self)]
+        # the database invariant holds after every stored point (fix: with auto_index off the index is invalidated at once, not after the loop),
+        # so that an exception from the iterable or from a later point leaves a consistent database
+        return dbinv(c.self)
 
     loops = {0: dict(inv=lambda c: _insert_helper._inv(c))}
 
 
-APPEND_RAISES = {"OSError": staticmethod(lambda c: dict(when=z3.Not(c.self.t["_storage"].t["appendable"].t))), "WriteFault": staticmethod(lambda c: write_fault(c))}
+APPEND_RAISES = {"OSError": staticmethod(lambda c: dict(when=z3.Not(c.self.t["_storage"].t["appendable"].t))), "WriteFault": staticmethod(lambda c: write_fault(c)),
+                 "IterFault": staticmethod(lambda c: write_fault(c))}
 
 
 @contract(_TF + "insert")
